@@ -36,6 +36,38 @@ func envInt(name string, def int) int {
 }
 
 func profile() gen.Profile {
+	p := baseProfile()
+	// experiments: VERIF_FEATURES=HostileFields,Unions,... switches features on
+	for _, f := range strings.Split(os.Getenv("VERIF_FEATURES"), ",") {
+		switch f {
+		case "HostileFields":
+			p.HostileFields = true
+		case "HostileNames":
+			p.HostileNames = true
+		case "Unions":
+			p.Unions = true
+		case "Any":
+			p.Any = true
+		case "Extend":
+			p.Extend = true
+		case "Streaming":
+			p.Streaming = true
+		case "Files":
+			p.Files = true
+		case "Meta":
+			p.Meta = true
+		case "Examples":
+			p.Examples = true
+		case "AllVerbs":
+			p.AllVerbs = true
+		case "NoRuntime":
+			p.Runtime = false
+		}
+	}
+	return p
+}
+
+func baseProfile() gen.Profile {
 	switch os.Getenv("VERIF_PROFILE") {
 	case "request":
 		return gen.Request()
@@ -49,6 +81,8 @@ func profile() gen.Profile {
 		return gen.Routes()
 	case "errors":
 		return gen.Errors()
+	case "names":
+		return gen.Names()
 	}
 	return gen.Wide()
 }
@@ -63,6 +97,7 @@ func TestCompileRequest(t *testing.T)  { campaign(t, gen.Request()) }
 func TestCompileResponse(t *testing.T) { campaign(t, gen.Response()) }
 func TestCompileErrors(t *testing.T)   { campaign(t, gen.Errors()) }
 func TestCompileSecurity(t *testing.T) { campaign(t, gen.Security()) }
+func TestCompileNames(t *testing.T)    { campaign(t, gen.Names()) }
 func TestCompileWide(t *testing.T)     { campaign(t, gen.Wide()) }
 func TestCompileGRPC(t *testing.T)     { campaign(t, gen.GRPCProfile()) }
 
